@@ -104,6 +104,19 @@ def run(ctx):
     srcs = {dstr(e['args'][1]) for e in dups}
     ctx.check('C20.W1', targets == [1, 2] and len(srcs) == 1, st.name, 'child:stdout-stderr-pipe', st.loc,
               'fd 1 and fd 2 of the child are dup\'ed from the same pipe end (%s -> %s)' % (sorted(srcs), targets))
+    # the end of the pipe the command writes to is an ordinary blocking descriptor: the command keeps whatever mode the
+    # descriptor has when it is dup'ed onto 1 / 2, and a writer that gets EAGAIN loses output (or fails)
+    mk = [e for e in st.events('call') if e.get('name') in ('pipe', 'pipe2', 'socketpair')]
+    ctx.check('C20.W1', len(mk) == 1, st.name, 'child:pipe-creation', st.loc, 'the output pipe is created once (%s)' % [e.get('name') for e in mk])
+    for e in mk:
+        fl = const_value(e['args'][1]) if e.get('name') == 'pipe2' and len(e.get('args') or []) > 1 else 0
+        ctx.check('C20.W1', e.get('name') in ('pipe', 'pipe2') and isinstance(fl, int) and not (fl & 0o4000), st.name, 'child:nonblocking-output-pipe', st.where(e),
+                  'the pipe handed to the command is created blocking (%s, flags %s)' % (e.get('name'), oct(fl) if isinstance(fl, int) else fl))
+    for e in st.events('call'):
+        if e.get('name') == 'fcntl' and any(isinstance(const_value(a), int) and const_value(a) & 0o4000 for a in (e.get('args') or [])[2:]) and \
+                const_value((e.get('args') or [None, None])[1]) == 4:
+            ctx.check('C20.W1', not srcs or not any(s_ in dstr(e['args'][0]) for s_ in srcs), st.name, 'child:nonblocking-output-pipe', st.where(e),
+                      'O_NONBLOCK is not set on the end of the pipe the command writes to')
     for e in dups:
         guarded(ctx, 'C20.W1', st, e, lambda a: mentions_field(a, 'Subprocess::use_console_'), False,
                 'redirection applies to non-console children', construct='child:dup-under-console')
@@ -237,7 +250,23 @@ def run(ctx):
         ctx.check('C20.O1', r is None and bool(ps), bef.name, 'status-line:skipped-before-output', bef.where(p_),
                   'only a console command has its output / FAILED header printed without its status line directly before',
                   witness=None if r is None else {'blocks': r[0]})
-    ctx.floor('C20.O1', 11)
+    # ... and exactness: with a failed command nothing but the QUIET verbosity keeps the header (and the non-empty output) from
+    # being printed - not the pool of the edge, not the terminal type
+    def failed_world(b2, i2, s3):
+        for k_, pol, a in bef.edge_facts(b2, i2):
+            sa = strip(a)
+            if isinstance(sa, dict) and sa.get('k') == 'bin' and sa.get('op') == '==' and mentions_var(sa, 'exit_code') and mentions_enum(sa, 'ExitSuccess') and pol is True:
+                return False            # this is the successful command's side
+            if pol is True and mentions_enum(a, 'BuildConfig::QUIET') and isinstance(sa, dict) and sa.get('k') == 'bin' and sa.get('op') == '==':
+                return False            # the quiet side may skip everything
+        return True
+    for tgt, what in ((failed, 'FAILED line'), (cmdl, 'command line')):
+        r = bef.find_path(None, lambda x: x['k'] == 'ret', from_succ=bef.entry, is_blocker=lambda x: any(x is y for y in tgt), edge_ok=failed_world, sensitive=False)
+        r2 = None if r is not None else _reaches_exit_without(bef, tgt, failed_world)
+        ctx.check('C20.O1', bool(tgt) and r is None and r2 is None, bef.name, 'failure-header:skipped:%s' % what.split()[0], bef.loc,
+                  'for a failed command every path of BuildEdgeFinished (verbosity not QUIET) prints the %s' % what,
+                  witness=None if (r is None and r2 is None) else {'blocks': (r[0] if r else r2)})
+    ctx.floor('C20.O1', 13)
 
     # ---- R1: counters -----------------------------------------------------------------------------------
     R('C20.R1', 'R', 'started/finished/total have exactly the writers BuildEdgeStarted / '
@@ -446,3 +475,18 @@ def run(ctx):
         ctx.check('C20.O2', r is None, f.name, 'stdout:setvbuf-conditional', f.where(e), 'every path to the flag parser / the build passes the setvbuf')
     ctx.floor('C20.O2', 5)
 
+
+
+def _reaches_exit_without(f, blockers, edge_ok=None):
+    seen, st = set(), [f.entry]
+    while st:
+        b = st.pop()
+        if b in seen or b is None:
+            continue
+        seen.add(b)
+        if any(any(e is k for k in blockers) for e in f.blocks[b]['ev']):
+            continue
+        if b == f.exit:
+            return [b]
+        st += [x for i, x in enumerate(f.blocks[b]['succ']) if x is not None and (edge_ok is None or edge_ok(b, i, x))]
+    return None
